@@ -221,7 +221,7 @@ def cases(rng, tier):
         for t in jt:
             yield {"k": "urljoin", "base": b, "url": t}
     # seeded random compositions
-    n = 1500 if tier == "quick" else 40000
+    n = 5000 if tier == "quick" else 250000
     alphabet = "au=&?/%:.#2Fq@x[ é"
     for _ in range(n):
         r = rng.random()
